@@ -20,12 +20,12 @@ def check(run):
                     'the actual side and the expected side go through the same transformations before they are compared (preprocess, '
                     'trailing-empty strip, removal filter, normalisation, decoding): near-mirror statement pairs must be exact mirrors')
     run.floor('C04-SYM', n, 120)
-    split(run, p, fc)
-    prop(run, p, 'C04', TEXT_ASSERTS)
-    exc(run, p, fc)
-    perm(run, p, fc)
-    rawremove(run, p, fc)
-    stateless(run, p, fc)
+    run.attempt(split, run, p, fc)
+    run.attempt(prop, run, p, 'C04', TEXT_ASSERTS)
+    run.attempt(exc, run, p, fc)
+    run.attempt(perm, run, p, fc)
+    run.attempt(rawremove, run, p, fc)
+    run.attempt(stateless, run, p, fc)
     from .common import nocache_rule
     nocache_rule(run, 'C04-NOCACHE', p, ['tdda.referencetest.checkfiles', 'tdda.referencetest.basecomparison'],
                  'no memoising decorator and no class-level container used as a cache in the text comparison modules')
@@ -37,8 +37,8 @@ def check(run):
     run.floor('C04-WHOLESTR', n, 3)
     from .. import ief, triage
     rt = p.cls('ReferenceTest')
-    ief.run_ief(run, 'C04', [p.lookup_method(rt.qn, n) for n in TEXT_ASSERTS], triage=triage.IEF)
-    run.floor('C04-IEF', run.units['ief_functions_checked'], 35)
+    run.attempt(ief.run_ief, run, 'C04', [p.lookup_method(rt.qn, n) for n in TEXT_ASSERTS], triage=triage.IEF)
+    run.floor('C04-IEF', run.units.get('ief_functions_checked', 0), 35)
 
 
 def split(run, p, fc):
